@@ -1433,7 +1433,7 @@ def units(tier, seed):
 
 
 def unit_weight(u):
-    return {"o1": 5, "o2": 3, "yaml": 2, "yaml-pairs": 2, "excl-gen": 3, "near": 2}.get(u["part"], 1)
+    return {"o1": 5, "o2": 3, "yaml": 2, "yaml-pairs": 2, "excl-gen": 3}.get(u["part"], 1)
 
 
 _STRIP = {ord(c): None for c in "'\"\\[]()"}
